@@ -212,3 +212,75 @@ def const_ratio(p, q):
         return None
     c = p.t[m] / q.t[m]
     return c if p == q.scale(c) else None
+
+
+# ------------------------------------------------------------------ exact numeric evaluation (Engine G)
+class CannotEvaluate(Exception):
+    pass
+
+
+def evaluate(x, env):
+    """Exact value (Fraction, or the string 'nan') of a Rat/atom under env: atom -> Fraction.  Supports ite, abs,
+    min, max, floordiv, int, sign; anything else must be bound in env."""
+    if isinstance(x, Rat):
+        num = _eval_poly(x.n, env)
+        den = _eval_poly(x.d, env)
+        if den == 0:
+            raise CannotEvaluate('division by zero')
+        return num / den
+    return _eval_atom(x, env)
+
+
+def _eval_poly(p, env):
+    tot = Fraction(0)
+    for m, c in p.t.items():
+        term = Fraction(c)
+        for a, pw in m:
+            term *= _eval_atom(a, env) ** pw
+        tot += term
+    return tot
+
+
+def _eval_atom(a, env):
+    if a in env:
+        return Fraction(env[a])
+    if isinstance(a, Sym):
+        if a.name in NUMERIC:
+            return NUMERIC[a.name]
+        raise CannotEvaluate('unbound symbol %r' % a)
+    if isinstance(a, App):
+        if a.name == 'ite':
+            c = eval_cond_full(a.args[0], env)
+            return evaluate(a.args[1] if c else a.args[2], env)
+        if a.name == 'abs':
+            return abs(evaluate(a.args[0], env))
+        if a.name in ('min', 'max'):
+            vals = [evaluate(z, env) for z in a.args]
+            return min(vals) if a.name == 'min' else max(vals)
+        if a.name == 'floordiv':
+            u, v = evaluate(a.args[0], env), evaluate(a.args[1], env)
+            return Fraction(u // v)
+        if a.name == 'int':
+            return Fraction(int(evaluate(a.args[0], env)))
+        if a.name == 'bool':
+            return Fraction(1 if eval_cond_full(a.args[0], env) else 0)
+        raise CannotEvaluate('uninterpreted %s' % a.name)
+    raise CannotEvaluate(repr(a))
+
+
+def eval_cond_full(c, env):
+    if c[0] == 'cmp':
+        d = c[2] if isinstance(c[2], Rat) else c[3]
+        v = evaluate(d, env)
+        return {'==': v == 0, '!=': v != 0, '<': v < 0, '<=': v <= 0}[c[1]]
+    if c[0] == 'and':
+        return all(eval_cond_full(x, env) for x in c[1:])
+    if c[0] == 'or':
+        return any(eval_cond_full(x, env) for x in c[1:])
+    if c[0] == 'not':
+        return not eval_cond_full(c[1], env)
+    if c[0] == 'const':
+        return bool(c[1])
+    if c[0] == 'truth':
+        return evaluate(c[1], env) != 0
+    raise CannotEvaluate(repr(c))
